@@ -940,3 +940,581 @@ func GlobRoot(w *load.World, c *core.Collector) {
 		return nil
 	})
 }
+
+// fieldOfValue: the struct field a value is read from (also as an element of a slice field, or
+// through a range over it): type name and field name, or "".
+func fieldOfValue(v ssa.Value) (string, string) {
+	for i := 0; i < 8 && v != nil; i++ {
+		switch x := v.(type) {
+		case *ssa.UnOp:
+			v = x.X
+		case *ssa.IndexAddr:
+			v = x.X
+		case *ssa.Index:
+			v = x.X
+		case *ssa.Field:
+			if st := ssax.StructOf(x.X.Type()); st != nil {
+				return ssax.TypeName(x.X.Type()), st.Field(x.Field).Name()
+			}
+			return "", ""
+		case *ssa.FieldAddr:
+			if st := ssax.StructOf(x.X.Type()); st != nil {
+				return ssax.TypeName(x.X.Type()), st.Field(x.Field).Name()
+			}
+			return "", ""
+		case *ssa.Extract:
+			v = x.Tuple
+		case *ssa.Next:
+			v = x.Iter
+		case *ssa.Range:
+			v = x.X
+		case *ssa.Phi:
+			if len(x.Edges) == 0 {
+				return "", ""
+			}
+			v = x.Edges[len(x.Edges)-1]
+		case *ssa.Alloc:
+			sv := ssax.SingleStore(x)
+			if sv == nil {
+				return "", ""
+			}
+			v = sv
+		default:
+			return "", ""
+		}
+	}
+	return "", ""
+}
+
+// mustParseValidated: every uuid.MustParse in the HTTP handlers is applied to a request field
+// whose type's Validate parses that very field (so that a malformed id is a 400 from validation,
+// not a panic in the handler). A validator that parses the id only "when it is required" lets an
+// optional, present, malformed id through to MustParse.
+func mustParseValidated(w *load.World, c *core.Collector) {
+	props := []string{"C18"}
+	isParse := func(call *ssa.Call) bool {
+		n := staticName(call)
+		return n == "github.com/google/uuid.Parse" || n == "github.com/google/uuid.ParseBytes" || n == "github.com/google/uuid.Validate"
+	}
+	// does fn (a Validate method or a helper it calls with the field at parameter pi, -1 for the
+	// receiver's own field) reach a Parse of the field, given constant arguments
+	var parses func(fn *ssa.Function, tname, fname string, pi int, consts map[int]bool, depth int) bool
+	parses = func(fn *ssa.Function, tname, fname string, pi int, consts map[int]bool, depth int) bool {
+		if depth > 3 || len(fn.Blocks) == 0 {
+			return false
+		}
+		// reachable blocks, pruning branches on parameters whose value is known
+		reach := map[*ssa.BasicBlock]bool{}
+		work := []*ssa.BasicBlock{fn.Blocks[0]}
+		for len(work) > 0 {
+			b := work[0]
+			work = work[1:]
+			if reach[b] {
+				continue
+			}
+			reach[b] = true
+			if ifi, ok := b.Instrs[len(b.Instrs)-1].(*ssa.If); ok {
+				cond, neg := ifi.Cond, false
+				if u, ok := cond.(*ssa.UnOp); ok && u.Op == token.NOT {
+					cond, neg = u.X, true
+				}
+				if p, ok := cond.(*ssa.Parameter); ok {
+					known := false
+					for i, q := range fn.Params {
+						if q == p {
+							if v, has := consts[i]; has {
+								known = true
+								if v != neg {
+									work = append(work, b.Succs[0])
+								} else {
+									work = append(work, b.Succs[1])
+								}
+							}
+						}
+					}
+					if known {
+						continue
+					}
+				}
+			}
+			work = append(work, b.Succs...)
+		}
+		isField := func(v ssa.Value) bool {
+			if pi >= 0 {
+				return peelToParam(v) == ssa.Value(fn.Params[pi])
+			}
+			t, f := fieldOfValue(v)
+			return t == tname && f == fname
+		}
+		for b := range reach {
+			for _, in := range b.Instrs {
+				call, ok := in.(*ssa.Call)
+				if !ok {
+					continue
+				}
+				if isParse(call) && len(call.Call.Args) > 0 && isField(call.Call.Args[0]) {
+					return true
+				}
+				h := call.Call.StaticCallee()
+				if h == nil || !ssax.InModule(h) || h == fn {
+					continue
+				}
+				for ai, a := range call.Call.Args {
+					if !isField(a) || ai >= len(h.Params) {
+						continue
+					}
+					cs := map[int]bool{}
+					for aj, aa := range call.Call.Args {
+						if v, isC := ssax.ConstBool(aa); isC {
+							cs[aj] = v
+						}
+					}
+					if parses(h, tname, fname, ai, cs, depth+1) {
+						return true
+					}
+				}
+			}
+		}
+		return false
+	}
+	n := 0
+	perFn := map[*ssa.Function]int{}
+	for _, f := range w.Fns {
+		if !load.InMod(f) || !strings.Contains(load.PkgPath(f), "/httpapi") || f.Synthetic != "" {
+			continue
+		}
+		for _, b := range f.Blocks {
+			for _, in := range b.Instrs {
+				call, ok := in.(*ssa.Call)
+				if !ok || staticName(call) != "github.com/google/uuid.MustParse" || len(call.Call.Args) != 1 {
+					continue
+				}
+				if _, isC := call.Call.Args[0].(*ssa.Const); isC {
+					continue
+				}
+				n++
+				perFn[f]++
+				tname, fname := fieldOfValue(call.Call.Args[0])
+				key := fmt.Sprintf("must-parse-validated:%s#%d", load.FnKey(f), perFn[f])
+				if tname == "" {
+					c.Add("VALID", key, core.Undecided, w.At(in), "cannot tell which request field uuid.MustParse is applied to", props...)
+					continue
+				}
+				var val *ssa.Function
+				for _, g := range w.Fns {
+					if g.Name() == "Validate" && g.Signature.Recv() != nil && g.Synthetic == "" && ssax.TypeName(g.Signature.Recv().Type()) == tname {
+						val = g
+					}
+				}
+				if val != nil && parses(val, tname, fname, -1, nil, 0) {
+					c.Add("VALID", key, core.OK, w.At(in), tname+"."+fname, props...)
+				} else {
+					c.Add("VALID", key, core.Violation, w.At(in), "uuid.MustParse is applied to "+tname+"."+fname+", which the request's Validate does not parse on every path that lets a non-empty value through (the check sits behind a flag that is false for this request type): a malformed id panics in the handler instead of being refused with 400", props...)
+				}
+			}
+		}
+	}
+	if n < 3 {
+		c.Add("VALID", "anchor:must-parse", core.Undecided, "", fmt.Sprintf("found %d uuid.MustParse calls in the http handlers, expected at least 3", n), props...)
+	}
+}
+
+// codecReadsBody: net/rpc calls ReadRequestBody / ReadResponseBody with nil to mean "read the body
+// and throw it away". Every successful return of the two methods comes after a call on the
+// decoder: returning early for a nil body leaves the body in the stream, where its bytes are
+// taken for the next header — a call that is still pending is completed with a zero reply.
+func codecReadsBody(w *load.World, c *core.Collector) {
+	props := []string{"C17"}
+	n := 0
+	for _, f := range w.Fns {
+		if load.PkgPath(f) != load.Mod+"/cluster/mrpc" || f.Synthetic != "" || f.Signature.Recv() == nil {
+			continue
+		}
+		if f.Name() != "ReadRequestBody" && f.Name() != "ReadResponseBody" {
+			continue
+		}
+		n++
+		dec := map[*ssa.BasicBlock]bool{}
+		for _, b := range f.Blocks {
+			for _, in := range b.Instrs {
+				if call, ok := in.(*ssa.Call); ok {
+					if g := call.Call.StaticCallee(); g != nil && strings.Contains(g.String(), "msgpack") && (strings.HasPrefix(g.Name(), "Decode") || g.Name() == "Skip") {
+						dec[b] = true
+					}
+				}
+			}
+		}
+		bad := ""
+		for _, ex := range successExits(f) {
+			// reachable from the entry without a decode?
+			seenB := map[*ssa.BasicBlock]bool{}
+			var dfs func(x *ssa.BasicBlock) bool
+			dfs = func(x *ssa.BasicBlock) bool {
+				if dec[x] || seenB[x] {
+					return false
+				}
+				seenB[x] = true
+				if x == ex.In.Block() {
+					return true
+				}
+				for _, s := range x.Succs {
+					if dfs(s) {
+						return true
+					}
+				}
+				return false
+			}
+			if dfs(f.Blocks[0]) {
+				bad = w.At(ex.In)
+			}
+		}
+		key := "codec-reads-body:" + f.Name()
+		if bad != "" {
+			c.Add("FANOUT", key, core.Violation, bad, "the codec can report a body as read without having read it (an early return for a nil destination): net/rpc passes nil to have the body discarded, the bytes stay in the stream and are decoded as the next header, and a pending call is completed with an empty reply — a shard's answer is silently missing from a fan-out", props...)
+		} else {
+			c.Add("FANOUT", key, core.OK, w.Position(f.Pos()), "", props...)
+		}
+	}
+	if n < 2 {
+		c.Add("FANOUT", "anchor:codec-bodies", core.Undecided, "", fmt.Sprintf("found %d body readers of the rpc codec, expected 2", n), props...)
+	}
+}
+
+// DEADLINE: a deadline is set on a connection (for a handshake) and the connection is handed on
+// without the deadline having been cleared: every later read or write on it fails once the
+// deadline has passed, whatever it was doing.
+func Deadline(w *load.World, c *core.Collector) {
+	per := map[string][]lintHit{}
+	seen := map[string]bool{}
+	isSet := func(in ssa.Instruction) (recv ssa.Value, zero bool, ok bool) {
+		call, isCall := in.(*ssa.Call)
+		if !isCall {
+			return nil, false, false
+		}
+		name := ""
+		var args []ssa.Value
+		if call.Call.IsInvoke() {
+			name, recv, args = call.Call.Method.Name(), call.Call.Value, call.Call.Args
+		} else if g := call.Call.StaticCallee(); g != nil && g.Signature.Recv() != nil && len(call.Call.Args) > 0 {
+			name, recv, args = g.Name(), call.Call.Args[0], call.Call.Args[1:]
+		}
+		if name != "SetDeadline" && name != "SetReadDeadline" && name != "SetWriteDeadline" || len(args) != 1 {
+			return nil, false, false
+		}
+		// time.Time{}: a zero-valued struct (a load of a zeroed local, or a constant)
+		z := false
+		switch a := args[0].(type) {
+		case *ssa.Const:
+			z = true
+		case *ssa.UnOp:
+			if al, isAl := a.X.(*ssa.Alloc); isAl {
+				z = true
+				for _, r := range *al.Referrers() {
+					if st, isSt := r.(*ssa.Store); isSt && st.Addr == ssa.Value(al) {
+						z = false
+					}
+				}
+			}
+		}
+		return recv, z, true
+	}
+	for _, f := range w.Fns {
+		if !load.InMod(f) || f.Synthetic != "" {
+			continue
+		}
+		pkg := load.PkgPath(f)
+		seen[pkg] = true
+		for _, b := range f.Blocks {
+			for _, in := range b.Instrs {
+				recv, zero, ok := isSet(in)
+				if !ok || zero {
+					continue
+				}
+				// is the connection handed on (returned, stored, given to a constructor) after this?
+				target := map[ssa.Instruction]bool{}
+				for _, bb := range f.Blocks {
+					if r, isRet := bb.Instrs[len(bb.Instrs)-1].(*ssa.Return); isRet {
+						n := len(r.Results)
+						if n > 0 && isErrorType(r.Results[n-1].Type()) && nonNilError(r.Results[n-1], bb) {
+							continue
+						}
+						target[r] = true
+					}
+				}
+				blocked := map[ssa.Instruction]bool{}
+				for _, bb := range f.Blocks {
+					for _, ii := range bb.Instrs {
+						if r2, z2, ok2 := isSet(ii); ok2 && z2 && r2 == recv {
+							blocked[ii] = true
+						}
+					}
+				}
+				if hit := reachesInstrWithout(in, target, blocked); hit != nil {
+					per[pkg] = append(per[pkg], lintHit{w.At(in), "a deadline is set on the connection here and the function can return successfully at " + w.At(hit) + " without having cleared it: once the deadline passes every read and write on the connection fails, whatever call is in flight"})
+				}
+			}
+		}
+	}
+	emitLint(c, "DEADLINE", "never-cleared", seen, per, func(p string) []string {
+		if strings.Contains(p, "/cluster") {
+			return []string{"C17"}
+		}
+		return nil
+	})
+}
+
+// sizeFromLen: the byte view the raw codecs lay over a vector is as long as the vector (len), not
+// as its backing array (cap): a vector sliced from a larger buffer would otherwise be encoded
+// together with what follows it.
+func sizeFromLen(w *load.World, c *core.Collector) {
+	props := []string{"C19"}
+	bad := ""
+	n := 0
+	for _, f := range w.Fns {
+		if load.PkgPath(f) != load.Mod+"/conversion" || f.Synthetic != "" {
+			continue
+		}
+		for _, b := range f.Blocks {
+			for _, in := range b.Instrs {
+				call, ok := in.(*ssa.Call)
+				if !ok {
+					continue
+				}
+				if bi, ok := call.Call.Value.(*ssa.Builtin); ok {
+					if bi.Name() == "len" {
+						n++
+					}
+					if bi.Name() == "cap" {
+						if _, isParam := peelToParam(call.Call.Args[0]).(*ssa.Parameter); isParam {
+							bad = w.At(in)
+						}
+					}
+				}
+			}
+		}
+	}
+	if bad != "" {
+		c.Add("LAYOUT", "size-from-len", core.Violation, bad, "a codec sizes its output by the capacity of its argument, not by its length: a vector that is a slice of a larger buffer is encoded together with the elements behind it and decodes to a longer vector", props...)
+	} else {
+		c.Add("LAYOUT", "size-from-len", core.OK, "", fmt.Sprintf("%d length computations", n), props...)
+	}
+}
+
+// neighboursReadAfterLoad: a graph node's cached neighbour list is filled lazily; a node that was
+// only read from the bucket has its edge ids and an empty list. Outside the node's own methods the
+// list is read only after LoadNeighbours was called on that node in the same function (or on a
+// node the function has just built): code that takes the list as it is sees nothing on a cold
+// cache, and a prune that starts from "the neighbours that stay" then drops every surviving edge.
+func neighboursReadAfterLoad(w *load.World, c *core.Collector) {
+	props := []string{"C08", "C03", "C10"}
+	n := 0
+	for _, f := range w.Fns {
+		if load.PkgPath(f) != load.Mod+"/shard/index/vamana" || f.Synthetic != "" {
+			continue
+		}
+		if f.Signature.Recv() != nil && strings.HasSuffix(ssax.TypeName(f.Signature.Recv().Type()), "graphNode") {
+			continue
+		}
+		bad := ""
+		cnt := 0
+		for _, b := range f.Blocks {
+			for _, in := range b.Instrs {
+				ld, ok := in.(*ssa.UnOp)
+				if !ok || ld.Op != token.MUL {
+					continue
+				}
+				fa, ok := ld.X.(*ssa.FieldAddr)
+				if !ok || fieldOf(fa) != "vamana.graphNode.neighbours" {
+					continue
+				}
+				cnt++
+				np, fresh := ssax.Path(fa.X)
+				if fresh {
+					continue
+				}
+				loaded := false
+				for _, bb := range f.Blocks {
+					for _, ii := range bb.Instrs {
+						call, ok := ii.(*ssa.Call)
+						if !ok || call.Call.StaticCallee() == nil || call.Call.StaticCallee().Name() != "LoadNeighbours" || len(call.Call.Args) == 0 {
+							continue
+						}
+						cp, _ := ssax.Path(call.Call.Args[0])
+						if (call.Call.Args[0] == fa.X || (cp != "" && cp == np)) && ssax.Precedes(ii, in) {
+							loaded = true
+						}
+					}
+				}
+				if !loaded {
+					bad = w.At(in)
+				}
+			}
+		}
+		if cnt == 0 {
+			continue
+		}
+		n++
+		key := "neighbours-read-after-load:" + load.FnKey(f)
+		if bad != "" {
+			c.Add("ORDERING", key, core.Violation, bad, "a node's cached neighbour list is read without LoadNeighbours having been called on that node in this function: on a cold cache the list of a node read from the bucket is empty although its edge list is not, so what is computed from it (the candidates that survive a prune) differs between a warm and a cold cache and the truncated result is committed", props...)
+		} else {
+			c.Add("ORDERING", key, core.OK, w.Position(f.Pos()), "", props...)
+		}
+	}
+	if n < 2 {
+		c.Add("ORDERING", "anchor:neighbour-reads", core.Undecided, "", fmt.Sprintf("found %d functions outside the node's methods that read a node's neighbour list, expected at least 2", n), props...)
+	}
+}
+
+// POOLRESET: an object that comes out of a sync.Pool is wiped as a whole before it is used —
+// where it is taken, in the function it is handed to, or by every function that puts one back. A
+// wipe of a part of it ("the words that can be touched") leaves bits of the previous user, which
+// may be another tenant's search, in the rest.
+func PoolReset(w *load.World, c *core.Collector) {
+	per := map[string][]lintHit{}
+	seen := map[string]bool{}
+	isFullReset := func(in ssa.Instruction, obj ssa.Value, alias func(ssa.Value) bool) bool {
+		call, ok := in.(*ssa.Call)
+		if !ok {
+			return false
+		}
+		if bi, ok := call.Call.Value.(*ssa.Builtin); ok {
+			return bi.Name() == "clear" && len(call.Call.Args) == 1 && alias(call.Call.Args[0])
+		}
+		g := call.Call.StaticCallee()
+		if g == nil || g.Signature.Recv() == nil || len(call.Call.Args) == 0 || !alias(call.Call.Args[0]) {
+			return false
+		}
+		nm := g.Name()
+		return nm == "ClearAll" || nm == "Reset" || nm == "Clear" || strings.HasPrefix(nm, "Reset")
+	}
+	aliasOf := func(obj ssa.Value) func(ssa.Value) bool {
+		return func(v ssa.Value) bool {
+			for i := 0; i < 4 && v != nil; i++ {
+				if v == obj {
+					return true
+				}
+				switch x := v.(type) {
+				case *ssa.ChangeType:
+					v = x.X
+				case *ssa.MakeInterface:
+					v = x.X
+				case *ssa.Phi:
+					if len(x.Edges) == 1 {
+						v = x.Edges[0]
+					} else {
+						return false
+					}
+				default:
+					return false
+				}
+			}
+			return false
+		}
+	}
+	resetsIn := func(f *ssa.Function, obj ssa.Value) bool {
+		al := aliasOf(obj)
+		for _, b := range f.Blocks {
+			for _, in := range b.Instrs {
+				if isFullReset(in, obj, al) {
+					return true
+				}
+			}
+		}
+		return false
+	}
+	// do all Put sites of objects of type t reset what they put?
+	putsReset := func(t types.Type) (all bool, any bool) {
+		all = true
+		for _, f := range w.Fns {
+			if !load.InMod(f) {
+				continue
+			}
+			for _, b := range f.Blocks {
+				for _, in := range b.Instrs {
+					ci, ok := in.(ssa.CallInstruction)
+					if !ok || staticName(ci) != "(*sync.Pool).Put" || len(ci.Common().Args) < 2 {
+						continue
+					}
+					v := ci.Common().Args[1]
+					if mi, ok := v.(*ssa.MakeInterface); ok {
+						v = mi.X
+					}
+					if !types.Identical(v.Type(), t) {
+						continue
+					}
+					any = true
+					// reset of the very value, or of the field it was loaded from
+					ok2 := resetsIn(f, v)
+					if ld, isLd := v.(*ssa.UnOp); isLd && !ok2 {
+						for _, bb := range f.Blocks {
+							for _, ii := range bb.Instrs {
+								if l2, ok := ii.(*ssa.UnOp); ok && l2.X == ld.X && resetsIn(f, l2) {
+									ok2 = true
+								}
+							}
+						}
+					}
+					if !ok2 {
+						all = false
+					}
+				}
+			}
+		}
+		return
+	}
+	for _, f := range w.Fns {
+		if !load.InMod(f) || f.Synthetic != "" {
+			continue
+		}
+		pkg := load.PkgPath(f)
+		seen[pkg] = true
+		for _, b := range f.Blocks {
+			for _, in := range b.Instrs {
+				ta, ok := in.(*ssa.TypeAssert)
+				if !ok {
+					continue
+				}
+				call, ok := ta.X.(*ssa.Call)
+				if !ok || staticName(call) != "(*sync.Pool).Get" {
+					continue
+				}
+				var obj ssa.Value = ta
+				if ta.CommaOk {
+					continue
+				}
+				atGet := resetsIn(f, obj)
+				if !atGet {
+					for _, r := range *obj.Referrers() {
+						ci, ok := r.(ssa.CallInstruction)
+						if !ok {
+							continue
+						}
+						h := ci.Common().StaticCallee()
+						if h == nil || !ssax.InModule(h) || len(h.Blocks) == 0 {
+							continue
+						}
+						for ai, a := range ci.Common().Args {
+							if a == obj && ai < len(h.Params) && resetsIn(h, h.Params[ai]) {
+								atGet = true
+							}
+						}
+					}
+				}
+				if atGet {
+					continue
+				}
+				if all, any := putsReset(obj.Type()); any && all {
+					continue
+				}
+				per[pkg] = append(per[pkg], lintHit{w.At(in), "an object is taken from a sync.Pool and neither wiped as a whole before use (here or in the function it is handed to) nor by every function that puts one back: what the previous user left in it — another search, possibly another tenant's — is still there (a partial wipe covers only part of it)"})
+			}
+		}
+	}
+	emitLint(c, "POOLRESET", "not-wiped", seen, per, func(p string) []string {
+		if strings.HasSuffix(p, "/shard/index/vamana") {
+			return []string{"C16", "C03"}
+		}
+		return nil
+	})
+}
